@@ -10,6 +10,7 @@
 -/
 import Minicbor.Compat
 import Minicbor.Thm.C09
+import Minicbor.Lemmas.DeriveCompat
 
 namespace Minicbor.C10
 open Minicbor.Derive
@@ -133,5 +134,399 @@ theorem compat_missing_mandatory_example :
     let r : FTy := .struct { enc := some .map } [({ idx := 0 }, .int .u8), ({ idx := 1 }, .int .u8)]
     compatible w r = false ∧ deriveDecode r (deriveEncode w (.struct [.int 3])) = .err .missing [] := by
   refine ⟨by rfl, by rfl⟩
+
+/-! ## Positive theorems (all accepted schemas of the stated shape, all values, unbounded)
+
+`compat_decode_fields` is the engine: the reader's slot loops (both encodings) on a body written
+by *any* other version, given what each item on the wire does to the reader (skip, or the
+field's action delivering a value / swallowing an unknown variant).  `compat_decode_struct_partial`
+instantiates it for versions whose shared fields are declared alike — i.e. for every sequence of
+the documented edits "add an optional field" / "drop a field" at the top level of a struct, at
+new or gap indices, in array or map encoding, whatever the (nested) field types: shared fields
+come back equal, fields unknown to the writer are nil, fields unknown to the reader are ignored
+whatever their content.  The K5 situation is excluded by an explicit hypothesis, `skip()` on the
+ignored items is the statement of C06.skip_exact.  Edits *inside* a field's type (and the general
+statement `compat_decode_statement` restricted by `benign`) rest on the correspondence. -/
+
+/-- the reader's body decoder on a body written by any other version (engine). -/
+theorem compat_decode_fields (enc : Encoding) (fs : Fields) (vs : List Derive.Val) (gs : Fields) (rest : Bytes)
+    (ρ : Nat → Option Derive.Val)
+    (hacc : acceptedFields fs = true) (hnd : (liveIdxs fs).Nodup) (hty : hasFields fs vs = true)
+    (hndR : (liveIdxs gs).Nodup)
+    (hcell : enc = .array → ∀ m, maxPresent (specFields fs vs) = some m → ∀ i, i ≤ m →
+      StepH gs (ρ i) i (encPref (cellAt (specFields fs vs) i)))
+    (hentry : enc = .map → ∀ p ∈ encFields fs vs, p.nil = false → StepH gs (ρ p.idx) p.idx (tagBytes p.tag ++ p.body))
+    (hopt : ∀ b u, (b, u) ∈ gs → b.skip = false → sigmaF enc fs vs ρ b.idx = none → slotInit u = none →
+      (nilOf b u).isSome = true) :
+    Derive.fieldsDec enc (decFields gs) (frame enc (encFields fs vs) ++ rest) = .ok (readerVals (sigmaF enc fs vs ρ) gs) rest :=
+  fieldsDec_compat enc fs vs gs rest ρ hacc hnd hty hndR hcell hentry hopt
+
+/-- **C10 for structs whose shared fields are declared alike** (`SameHyp`: shared fields have the
+    same type, tag and codec; the reader's extra fields are optional and not hit by K5; the
+    writer's extra fields are skippable items). -/
+theorem compat_decode_struct_partial (a b : SAttr) (fs gs : Fields) (vs : List Derive.Val) (rest : Bytes)
+    (haw : accepted (.struct a fs) = true) (har : accepted (.struct b gs) = true)
+    (hv : hasTy (.struct a fs) (.struct vs) = true) (hc : C09.noClash (.struct a fs) (.struct vs) = true)
+    (hta : a.transparent = false) (htb : b.transparent = false) (htag : a.tag = b.tag)
+    (henc : a.enc.getD .array = b.enc.getD .array)
+    (H : SameHyp (a.enc.getD .array) fs vs gs) :
+    deriveDecode (.struct b gs) (deriveEncode (.struct a fs) (.struct vs) ++ rest)
+      = .ok (.struct (expectSame fs vs gs)) rest := by
+  simp only [accepted, Bool.and_eq_true] at haw har
+  simp only [hasTy] at hv
+  simp only [C09.noClash] at hc
+  have hrt := C09.fields_roundtrip fs vs haw.1.1.1.2 hv hc
+  have hmain := fieldsDec_same (a.enc.getD .array) fs vs gs rest haw.1.1.1.2 (C08.nodupNat_nodup _ haw.1.1.2) hv hrt
+    har.1.1.1.2 (C08.nodupNat_nodup _ har.1.1.2) H
+  simp only [deriveDecode, deriveEncode, encTy, decTy, structDec, hta, htb, Bool.false_eq_true, if_false, List.append_assoc]
+  rw [Dec.bind_run, ← htag, tagCheck_rt _ _ haw.1.1.1.1]
+  simp only []
+  rw [Dec.bind_run, ← henc, hmain]
+  rfl
+
+/-- **adding an optional field** (new or gap index, array or map): the newer reader sees the
+    older writer's fields unchanged and the new field as its nil value. -/
+theorem compat_add_optional_field (a : SAttr) (fs : Fields) (fa : FAttr) (ft : FTy) (vs : List Derive.Val) (rest : Bytes)
+    (haw : accepted (.struct a fs) = true) (har : accepted (.struct a ((fa, ft) :: fs)) = true)
+    (hv : hasTy (.struct a fs) (.struct vs) = true) (hc : C09.noClash (.struct a fs) (.struct vs) = true)
+    (hta : a.transparent = false) (hlive : fa.skip = false) (hopt : Optional fa ft)
+    (hk5 : a.enc.getD .array = .array → ∀ m, maxPresent (specFields fs vs) = some m → fa.idx ≤ m → fa.tag = none) :
+    deriveDecode (.struct a ((fa, ft) :: fs)) (deriveEncode (.struct a fs) (.struct vs) ++ rest)
+      = .ok (.struct (nilVal fa ft :: defaultsFields fs vs)) rest := by
+  have haw' := haw
+  have har' := har
+  simp only [accepted, Bool.and_eq_true] at haw' har'
+  have hv' := hv
+  simp only [hasTy] at hv'
+  have hndW := C08.nodupNat_nodup _ haw'.1.1.2
+  have hndR := C08.nodupNat_nodup _ har'.1.1.2
+  have hfresh : fa.idx ∉ liveIdxs fs := by
+    have : (fa.idx :: liveIdxs fs).Nodup := by simpa [liveIdxs, hlive] using hndR
+    exact (List.nodup_cons.1 this).1
+  have hnone : lookupVal fs vs fa.idx = none := (lookupVal_none fs vs fa.idx hv').2 hfresh
+  have H : SameHyp (a.enc.getD .array) fs vs ((fa, ft) :: fs) := by
+    refine ⟨?_, ?_, ?_⟩
+    · intro b u hbu hbs a' t' v' hl
+      rcases List.mem_cons.1 hbu with e | hbu'
+      · cases e; rw [hnone] at hl; cases hl
+      · obtain ⟨rfl, rfl⟩ := lookupVal_unique fs vs hndW b u hbu' hbs a' t' v' hl
+        exact ⟨rfl, rfl, rfl⟩
+    · intro b u hbu hbs hl
+      rcases List.mem_cons.1 hbu with e | hbu'
+      · cases e; exact ⟨hopt, hk5⟩
+      · have := (lookupVal_none fs vs b.idx hv').1 hl
+        exact absurd (mem_liveIdxs fs b u hbu' hbs) this
+    · intro p hp hni
+      exfalso; apply hni
+      have := encFields_idx_live fs vs p hp
+      simp [liveIdxs, hlive, this]
+  have := compat_decode_struct_partial a a fs ((fa, ft) :: fs) vs rest haw har hv hc hta hta rfl rfl H
+  rw [this]
+  simp only [expectSame, hlive, Bool.false_eq_true, if_false, hnone]
+  rw [expectSame_suffix fs vs fs vs hv' hndW (fun _ _ _ _ h => h)]
+
+/-- **dropping a field / a field unknown to the reader**: the reader that does not know a field
+    ignores it whatever its type and content (its item is skipped), all other fields are intact. -/
+theorem compat_drop_field (a : SAttr) (fs : Fields) (fa : FAttr) (ft : FTy) (v0 : Derive.Val) (vs : List Derive.Val) (rest : Bytes)
+    (haw : accepted (.struct a ((fa, ft) :: fs)) = true) (har : accepted (.struct a fs) = true)
+    (hv : hasTy (.struct a ((fa, ft) :: fs)) (.struct (v0 :: vs)) = true)
+    (hc : C09.noClash (.struct a ((fa, ft) :: fs)) (.struct (v0 :: vs)) = true)
+    (hta : a.transparent = false) (hlive : fa.skip = false)
+    (hskip : ∀ r, Dec.skip true (tagBytes fa.tag ++ (encWith fa.codec (encTy ft) v0 ++ r)) = .ok () r) :
+    deriveDecode (.struct a fs) (deriveEncode (.struct a ((fa, ft) :: fs)) (.struct (v0 :: vs)) ++ rest)
+      = .ok (.struct (defaultsFields fs vs)) rest := by
+  have haw' := haw
+  have har' := har
+  simp only [accepted, Bool.and_eq_true] at haw' har'
+  have hv' := hv
+  simp only [hasTy, hasFields, Bool.and_eq_true] at hv'
+  have hndW := C08.nodupNat_nodup _ haw'.1.1.2
+  have hndR := C08.nodupNat_nodup _ har'.1.1.2
+  have hfresh : fa.idx ∉ liveIdxs fs := by
+    have : (fa.idx :: liveIdxs fs).Nodup := by simpa [liveIdxs, hlive] using hndW
+    exact (List.nodup_cons.1 this).1
+  have hlk : ∀ i, i ∈ liveIdxs fs → lookupVal ((fa, ft) :: fs) (v0 :: vs) i = lookupVal fs vs i := by
+    intro i hi
+    have hne : fa.idx ≠ i := by intro e; rw [e] at hfresh; exact hfresh hi
+    have hb : (fa.idx == i) = false := by simpa using hne
+    simp [lookupVal, hlive, hb]
+  have H : SameHyp (a.enc.getD .array) ((fa, ft) :: fs) (v0 :: vs) fs := by
+    refine ⟨?_, ?_, ?_⟩
+    · intro b u hbu hbs a' t' v' hl
+      rw [hlk b.idx (mem_liveIdxs fs b u hbu hbs)] at hl
+      obtain ⟨rfl, rfl⟩ := lookupVal_unique fs vs hndR b u hbu hbs a' t' v' hl
+      exact ⟨rfl, rfl, rfl⟩
+    · intro b u hbu hbs hl
+      rw [hlk b.idx (mem_liveIdxs fs b u hbu hbs)] at hl
+      have := (lookupVal_none fs vs b.idx hv'.2).1 hl
+      exact absurd (mem_liveIdxs fs b u hbu hbs) this
+    · intro p hp hni r
+      simp only [encFields, hlive, Bool.false_eq_true, if_false, List.mem_cons] at hp
+      rcases hp with rfl | hp
+      · exact hskip r
+      · exfalso; apply hni
+        exact encFields_idx_live fs vs p hp
+  have := compat_decode_struct_partial a a ((fa, ft) :: fs) fs (v0 :: vs) rest haw har hv hc hta hta rfl rfl H
+  rw [this]
+  congr 2
+  exact expectSame_suffix ((fa, ft) :: fs) (v0 :: vs) fs vs hv'.2 hndR (by
+    intro i a' t' v' hl
+    have hi : i ∈ liveIdxs fs := by
+      have h3 := lookupVal_mem fs vs i a' t' v' hl
+      rw [← h3.2.1]; exact mem_liveIdxs fs a' t' (lookupVal_fst_mem fs vs i a' t' v' hl) h3.1
+    rw [hlk i hi]; exact hl)
+
+/-- **an unknown variant in an optional field becomes `None`**: the action of a field that
+    swallows unknown variants (`Option<Enum>`, nil-aware codec), on an item its decoder rejects
+    with an unknown-variant error *anywhere inside*, skips the whole item — regular and
+    `index_only` enums alike since the repair of F5 — and reports "keep the slot". -/
+theorem compat_unknown_variant_swallowed (b : FAttr) (u : FTy) (X r r' : Bytes)
+    (htag : tagOk b.tag = true) (hsw : swallows b u = true)
+    (hdec : decWith b.codec (decTy u) (X ++ r) = .err .variant r')
+    (hskip : Dec.skip true (tagBytes b.tag ++ (X ++ r)) = .ok () r) :
+    action (fdOf b u) (tagBytes b.tag ++ (X ++ r)) = .ok none r := by
+  unfold action
+  simp only [fdOf]
+  rw [Dec.bind_run, tagCheck_rt _ _ htag]
+  simp only [catchVariant, hdec, hsw, f5Fixed, Bool.and_self, beq_self_eq_true, if_true]
+  rw [Dec.bind_run, hskip]
+  rfl
+
+/-- … **without disturbing any sibling field**: the slots of all other fields are untouched and
+    the decoder stands exactly behind the item. -/
+theorem compat_unknown_variant_keeps_siblings (c : Nat) (X r : Bytes) : ∀ (gs : Fields) (ss : Slots),
+    (∀ b u, (b, u) ∈ gs → b.skip = false → b.idx = c → action (fdOf b u) (X ++ r) = .ok none r) →
+    c ∈ liveIdxs gs → gs.length = ss.length →
+    runAt (decFields gs) ss c (X ++ r) = .ok ss r
+  | [], _, _, hc, _ => by simp [liveIdxs] at hc
+  | (b, u) :: gs, [], _, _, hl => by simp at hl
+  | (b, u) :: gs, s :: ss, hact, hc, hl => by
+    by_cases hcond : (!b.skip && b.idx == c) = true
+    · simp only [Bool.and_eq_true, Bool.not_eq_true', beq_iff_eq] at hcond
+      have ha : action ⟨b, slotInit u, nilOf b u, defaultOf u, swallows b u, decWith b.codec (decTy u)⟩ (X ++ r) = .ok none r :=
+        hact b u (by simp) hcond.1 hcond.2
+      simp only [decFields_cons, runAt, fdOf, hcond.1, hcond.2, Bool.not_false, Bool.true_and, beq_self_eq_true, if_true]
+      rw [Dec.bind_run, ha]
+      rfl
+    · have hcond' : (!b.skip && b.idx == c) = false := by simpa using hcond
+      have hc' : c ∈ liveIdxs gs := by
+        cases hs : b.skip
+        · have : c ∈ b.idx :: liveIdxs gs := by simpa [liveIdxs, hs] using hc
+          rcases List.mem_cons.1 this with e | h
+          · simp [hs, e] at hcond'
+          · exact h
+        · simpa [liveIdxs, hs] using hc
+      have ih := compat_unknown_variant_keeps_siblings c X r gs ss (fun b' u' hm => hact b' u' (by simp [hm])) hc'
+        (by simpa using hl)
+      simp only [decFields_cons, runAt, fdOf, hcond', Bool.false_eq_true, if_false]
+      rw [Dec.bind_run, ih]
+      rfl
+
+/-- an enum decoder reports an unknown variant (here: at top level of the field's type) as an
+    unknown-variant error, which is what `compat_unknown_variant_swallowed` consumes. -/
+theorem compat_unknown_variant_error (e : EAttr) (us : Variants) (i : Nat) (rest : Bytes) (htag : e.tag = none)
+    (hi : i < 4294967296) (hunk : i ∉ us.map (·.1.idx)) :
+    decTy (.option (.enum e us)) ((if e.indexOnly then [] else Enc.array 2) ++ (Enc.u32 i ++ rest)) = .err .variant rest := by
+  have h := C09.derive_unknown_variant e us i rest htag hi hunk
+  have hs : startOk ((if e.indexOnly then [] else Enc.array 2) ++ (Enc.u32 i)) = true := by
+    cases e.indexOnly
+    · rfl
+    · simp only [if_true, List.nil_append]
+      unfold Enc.u32
+      split
+      · have : (Minicbor.u8 i).toNat = i := u8_toNat (by omega)
+        simp [startOk, this]; omega
+      · split
+        · simp [startOk]
+        · split <;> simp [startOk]
+  obtain ⟨ty, h1, h2⟩ := datatype_startOk _ rest hs
+  simp only [List.append_assoc] at h1
+  simp only [decTy, optionDec]
+  rw [Dec.bind_run, h1]
+  simp only [h2, beq_iff_eq, if_false]
+  simp only [deriveDecode, decTy] at h
+  rw [Dec.bind_run, h]
+
+/-! ## The documented edits are instances of `compatible` (both directions) -/
+
+theorem findVar_of_mem : ∀ (us : Variants) (pos : Nat) (va : VAttr) (fs : Fields), (us.map (·.1.idx)).Nodup → (va, fs) ∈ us →
+    ∃ p, findVar us pos va.idx = some (p, va, fs)
+  | [], _, _, _, _, h => by simp at h
+  | (vb, gs) :: us, pos, va, fs, hnd, h => by
+    have hnd' : vb.idx ∉ us.map (·.1.idx) ∧ (us.map (·.1.idx)).Nodup := List.nodup_cons.1 hnd
+    rcases List.mem_cons.1 h with e | h'
+    · cases e; exact ⟨pos, by simp [findVar]⟩
+    · have hne : vb.idx ≠ va.idx := by
+        intro e; apply hnd'.1; rw [e]; exact List.mem_map.2 ⟨(va, fs), h', rfl⟩
+      have hb : (vb.idx == va.idx) = false := by simpa using hne
+      obtain ⟨p, hp⟩ := findVar_of_mem us (pos + 1) va fs hnd'.2 h'
+      exact ⟨p, by simp [findVar, hb, hp]⟩
+
+theorem onlyOptional_self (fs : Fields) (hnd : (liveIdxs fs).Nodup) : onlyOptional fs fs = true := by
+  simp only [onlyOptional, List.all_eq_true, Bool.or_eq_true]
+  intro g hg
+  cases hs : g.1.skip
+  · left; right
+    have := findField_of_mem fs g.1 g.2 hnd hg hs
+    simp [this]
+  · left; left; rfl
+
+theorem compat_blob_refl (t : FTy) (l : Bool) (hb : fieldBlob t = true) : compatTy l t t = true := by
+  cases t with
+  | blob k => simp [compatTy]
+  | option t' =>
+    cases t' with
+    | blob k => simp [compatTy]
+    | _ => simp [fieldBlob] at hb
+  | _ => simp [fieldBlob] at hb
+
+mutual
+/-- every accepted version reads itself. -/
+theorem compat_refl : ∀ (t : FTy) (l : Bool), accepted t = true → compatTy l t t = true
+  | .int _, _, _ => by simp [compatTy]
+  | .bool, _, _ => by simp [compatTy]
+  | .text _, _, _ => by simp [compatTy]
+  | .blob _, _, _ => by simp [compatTy]
+  | .option t, l, ha => by simp only [accepted] at ha; simp only [compatTy]; exact compat_refl t l ha
+  | .vec t, l, ha => by simp only [accepted] at ha; simp only [compatTy]; exact compat_refl t false ha
+  | .struct a fs, l, ha => by
+    simp only [accepted, Bool.and_eq_true] at ha
+    have hnd := C08.nodupNat_nodup _ ha.1.1.2
+    simp only [compatTy, beq_self_eq_true, Bool.true_and]
+    cases htr : a.transparent
+    · simp only [Bool.false_eq_true, if_false, Bool.and_eq_true]
+      exact ⟨compatFields_refl fs fs ha.1.1.1.2 hnd (fun g hg => hg), onlyOptional_self fs hnd⟩
+    · simp only [if_true]
+      have h1 := ha.2
+      simp only [htr, Bool.not_true, Bool.false_or, Bool.and_eq_true] at h1
+      match fs, h1, ha with
+      | [(fa, ft)], _, ha =>
+        simp only [compatOne, beq_self_eq_true, Bool.true_and]
+        have := ha.1.1.1.2
+        simp only [acceptedFields, Bool.and_eq_true, Bool.or_eq_true] at this
+        rcases this.1.2 with hb | hacc
+        · exact compat_blob_refl ft false hb
+        · exact compat_refl ft false hacc
+      | [], h1, _ => simp at h1
+      | _ :: _ :: _, h1, _ => simp at h1
+  | .enum a vs, l, ha => by
+    simp only [accepted, Bool.and_eq_true] at ha
+    simp only [compatTy, beq_self_eq_true, Bool.true_and]
+    exact compatVars_refl l a vs vs ha.1.1.2 (C08.nodupNat_nodup _ ha.1.2) (fun g hg => hg)
+termination_by structural t => t
+theorem compatFields_refl : ∀ (fs gs : Fields), acceptedFields fs = true → (liveIdxs gs).Nodup → (∀ g ∈ fs, g ∈ gs) →
+    compatFields fs gs = true
+  | [], _, _, _, _ => by simp [compatFields]
+  | (fa, t) :: fs, gs, ha, hnd, hsub => by
+    simp only [acceptedFields, Bool.and_eq_true, Bool.or_eq_true] at ha
+    simp only [compatFields, Bool.and_eq_true]
+    refine ⟨?_, compatFields_refl fs gs ha.2 hnd (fun g hg => hsub g (by simp [hg]))⟩
+    cases hs : fa.skip
+    · simp only [Bool.false_eq_true, if_false]
+      rw [findField_of_mem gs fa t hnd (hsub _ (by simp)) hs]
+      simp only [beq_self_eq_true, Bool.true_and]
+      rcases ha.1.2 with hb | hacc
+      · exact compat_blob_refl t _ hb
+      · exact compat_refl t _ hacc
+    · simp
+termination_by structural fs => fs
+theorem compatVars_refl (l : Bool) (e : EAttr) : ∀ (vs us : Variants), acceptedVars e vs = true →
+    (us.map (·.1.idx)).Nodup → (∀ g ∈ vs, g ∈ us) → compatVars l e e vs us = true
+  | [], _, _, _, _ => by simp [compatVars]
+  | (va, fs) :: rest, us, ha, hnd, hsub => by
+    simp only [acceptedVars, Bool.and_eq_true, decide_eq_true_eq] at ha
+    obtain ⟨⟨⟨⟨⟨⟨hidx, htag⟩, hacc⟩, hndf⟩, hunit⟩, hio⟩, hrest⟩ := ha
+    simp only [compatVars, Bool.and_eq_true]
+    refine ⟨?_, compatVars_refl l e rest us hrest hnd (fun g hg => hsub g (by simp [hg]))⟩
+    obtain ⟨p, hp⟩ := findVar_of_mem us 0 va fs hnd (hsub _ (by simp))
+    rw [hp]
+    simp only [beq_self_eq_true, Bool.true_and]
+    cases hsh : va.shape
+    · rfl
+    all_goals
+      simp only [Bool.and_eq_true, Bool.true_and]
+      exact ⟨compatFields_refl fs fs hacc (C08.nodupNat_nodup _ hndf) (fun g hg => hg), onlyOptional_self fs (C08.nodupNat_nodup _ hndf)⟩
+termination_by structural vs => vs
+end
+
+theorem compatible_refl (t : FTy) (ha : accepted t = true) : compatible t t = true := compat_refl t false ha
+
+/-- "add an optional field" and "drop an optional field" are `compatible` in both directions. -/
+theorem step_compatible_field (l : Bool) (a : SAttr) (fs : Fields) (fa : FAttr) (ft : FTy)
+    (hold : accepted (.struct a fs) = true) (hnew : accepted (.struct a ((fa, ft) :: fs)) = true)
+    (hta : a.transparent = false) (hlive : fa.skip = false) (hopt : Optional fa ft) :
+    compatTy l (.struct a fs) (.struct a ((fa, ft) :: fs)) = true ∧
+    compatTy l (.struct a ((fa, ft) :: fs)) (.struct a fs) = true := by
+  have hold' := hold
+  have hnew' := hnew
+  simp only [accepted, Bool.and_eq_true] at hold' hnew'
+  have hndO := C08.nodupNat_nodup _ hold'.1.1.2
+  have hndN := C08.nodupNat_nodup _ hnew'.1.1.2
+  have hfresh : fa.idx ∉ liveIdxs fs := by
+    have : (fa.idx :: liveIdxs fs).Nodup := by simpa [liveIdxs, hlive] using hndN
+    exact (List.nodup_cons.1 this).1
+  have hself := compatFields_refl fs fs hold'.1.1.1.2 hndO (fun g hg => hg)
+  have hselfN : compatFields fs ((fa, ft) :: fs) = true :=
+    compatFields_refl fs ((fa, ft) :: fs) hold'.1.1.1.2 hndN (fun g hg => by simp [hg])
+  constructor
+  · -- the newer reader: all old fields are shared; the new field is optional
+    simp only [compatTy, hta, beq_self_eq_true, Bool.true_and, Bool.false_eq_true, if_false, Bool.and_eq_true]
+    refine ⟨hselfN, ?_⟩
+    simp only [onlyOptional, List.all_cons, Bool.and_eq_true, Bool.or_eq_true, List.all_eq_true]
+    refine ⟨Or.inr hopt, ?_⟩
+    intro g hg
+    cases hs : g.1.skip
+    · left; right
+      simp [findField_of_mem fs g.1 g.2 hndO hg hs]
+    · left; left; rfl
+  · -- the older reader: the new field is unknown to it and skipped
+    simp only [compatTy, hta, beq_self_eq_true, Bool.true_and, Bool.false_eq_true, if_false, Bool.and_eq_true]
+    refine ⟨?_, ?_⟩
+    · simp only [compatFields, hlive, Bool.false_eq_true, if_false, Bool.and_eq_true]
+      refine ⟨?_, hself⟩
+      rw [(findField_none fs fa.idx).2 hfresh]
+    · simp only [onlyOptional, List.all_eq_true, Bool.or_eq_true]
+      intro g hg
+      cases hs : g.1.skip
+      · left; right
+        have hne : fa.idx ≠ g.1.idx := by
+          intro e; apply hfresh; rw [e]; exact mem_liveIdxs fs g.1 g.2 hg hs
+        have hb : (fa.idx == g.1.idx) = false := by simpa using hne
+        simp [findField, hlive, hb, findField_of_mem fs g.1 g.2 hndO hg hs]
+      · left; left; rfl
+
+/-- "add a variant to an enum that is only used as an optional field": the newer reader always
+    reads the older writer; the older reader reads the newer writer exactly in lenient (optional
+    field) position. -/
+theorem step_compatible_variant (e : EAttr) (vars : Variants) (va : VAttr) (fs : Fields)
+    (hold : accepted (.enum e vars) = true) (hnew : accepted (.enum e ((va, fs) :: vars)) = true) :
+    (∀ l, compatTy l (.enum e vars) (.enum e ((va, fs) :: vars)) = true) ∧
+    compatTy true (.enum e ((va, fs) :: vars)) (.enum e vars) = true ∧
+    compatTy false (.enum e ((va, fs) :: vars)) (.enum e vars) = false := by
+  have hold' := hold
+  have hnew' := hnew
+  simp only [accepted, Bool.and_eq_true] at hold' hnew'
+  have hndO := C08.nodupNat_nodup _ hold'.1.2
+  have hndN := C08.nodupNat_nodup _ hnew'.1.2
+  have hfresh : va.idx ∉ vars.map (·.1.idx) := (List.nodup_cons.1 (by simpa using hndN)).1
+  have hnf : findVar vars 0 va.idx = none := by
+    have : ∀ (us : Variants) (pos : Nat), va.idx ∉ us.map (·.1.idx) → findVar us pos va.idx = none := by
+      intro us
+      induction us with
+      | nil => intros; rfl
+      | cons u us ih =>
+        intro pos h
+        obtain ⟨ub, ug⟩ := u
+        have hne : ub.idx ≠ va.idx := by intro e; apply h; simp [e]
+        have hb : (ub.idx == va.idx) = false := by simpa using hne
+        simp only [findVar, hb, Bool.false_eq_true, if_false]
+        exact ih (pos + 1) (fun hm => h (by simp [hm]))
+    exact this vars 0 hfresh
+  refine ⟨fun l => ?_, ?_, ?_⟩
+  · simp only [compatTy, beq_self_eq_true, Bool.true_and]
+    exact compatVars_refl l e vars ((va, fs) :: vars) hold'.1.1.2 hndN (fun g hg => by simp [hg])
+  · simp only [compatTy, beq_self_eq_true, Bool.true_and, compatVars, hnf]
+    exact compatVars_refl true e vars vars hold'.1.1.2 hndO (fun g hg => hg)
+  · simp [compatTy, compatVars, hnf]
 
 end Minicbor.C10
